@@ -302,7 +302,10 @@ def cases(rng, tier):
 
 TOLS = [None, None, 0.3, 1e-2, 5.0, 1e-6]
 CTOR_EPS = ([Fraction(1, 2 ** 12), Fraction(-1, 2 ** 12)] * 3 + [Fraction(1, 2 ** 20), Fraction(-1, 2 ** 20)] * 2 +
-            [Fraction(1, 2 ** 9), Fraction(-1, 2 ** 9), Fraction(1, 2 ** 14), Fraction(-1, 2 ** 14), Fraction(1, 8), Fraction(-1, 8)])
+            [Fraction(1, 2 ** 8), Fraction(-1, 2 ** 8), Fraction(1, 2 ** 14), Fraction(-1, 2 ** 14), Fraction(1, 8), Fraction(-1, 8)])
+# (offsets in cells; every one is more than a factor 3.3 away from the two INCIDENTAL constants on the code path - the 0.1 % of
+#  the divisibility test and, in the nm regime with cell 2^-30, the absolute 1e-12 of is_aligned - so that a retuned constant
+#  (benign/C10-B3: 1e-3 -> 9e-4) does not change any outcome that is compared)
 
 
 def gen_ctor(rng):
@@ -315,7 +318,8 @@ def gen_ctor(rng):
     ndim = rng.choice([1, 1, 2, 3])
     scale = Fraction(1, 2 ** 30) if rng.random() < 0.7 else Fraction(1)
     n = [rng.randint(2, 5) for _ in range(ndim)]
-    cell = [Fraction(rng.choice([1, 1, 3, 5]), rng.choice([1, 2, 4])) * scale for _ in range(ndim)]
+    c0 = scale if scale != 1 else Fraction(rng.choice([1, 1, 3, 5]), rng.choice([1, 2, 4]))
+    cell = [c0] * ndim        # one cell size on all axes: the offsets below are then the same fraction of min(cell) on every axis
     origin = [rng.randint(-3, 3) * c for c in cell]
     cands = []
     for name in rng.sample(SUBNAMES, rng.choice([1, 1, 2])):
